@@ -113,9 +113,16 @@ impl<'tcx> M<'tcx> {
         let n = |x: i128| V::Int(int_norm(tcx, ret, x));
         let b = |x: bool| V::Int(x as i128);
         Some(match (m, ints.as_slice()) {
-            ("add" | "wrapping_add", [a, c]) => n(a.wrapping_add(*c)),
-            ("sub" | "wrapping_sub", [a, c]) => n(a.wrapping_sub(*c)),
-            ("mul" | "wrapping_mul", [a, c]) => n(a.wrapping_mul(*c)),
+            ("add" | "wrapping_add" | "unchecked_add" | "forward_unchecked" | "forward", [a, c]) => n(a.wrapping_add(*c)),
+            ("sub" | "wrapping_sub" | "unchecked_sub" | "backward_unchecked" | "backward", [a, c]) => n(a.wrapping_sub(*c)),
+            ("mul" | "wrapping_mul" | "unchecked_mul", [a, c]) => n(a.wrapping_mul(*c)),
+            ("div" | "div_euclid", [a, c]) if *c > 0 && *a >= 0 => n(a / c),
+            ("rem" | "rem_euclid", [a, c]) if *c > 0 && *a >= 0 => n(a % c),
+            ("div_ceil", [a, c]) if *c > 0 && *a >= 0 => n((a + c - 1) / c),
+            ("min", [a, c]) if t0.is_integral() => n(*a.min(c)),
+            ("max", [a, c]) if t0.is_integral() => n(*a.max(c)),
+            ("saturating_sub", [a, c]) if matches!(t0.kind(), ty::Uint(_)) => n(if a > c { a - c } else { 0 }),
+            ("abs_diff", [a, c]) if t0.is_integral() => n((a - c).abs()),
             ("bitand", [a, c]) => n(a & c),
             ("bitor", [a, c]) => n(a | c),
             ("bitxor", [a, c]) => n(a ^ c),
@@ -160,6 +167,10 @@ impl<'tcx> M<'tcx> {
 
     pub fn call_value(&mut self, fv: V<'tcx>, vals: Vec<(V<'tcx>, Ty<'tcx>)>, ret_ty: Ty<'tcx>) -> R<V<'tcx>> {
         match fv {
+            V::FnDef(d, a) if self.tcx.is_closure_like(d) => {
+                let st = Ty::new_closure(self.tcx, d, a);
+                self.call_callable(V::Agg(vec![]), st, vals, ret_ty)
+            }
             V::FnDef(d, a) => self.call_def(d, a, vals, ret_ty),
             V::OpaqueFn(name) => {
                 let a = self.scalar_args(&vals)?;
@@ -204,6 +215,25 @@ impl<'tcx> M<'tcx> {
         let name = self.defname(d);
         if self.cfg.log {
             eprintln!("{}call {} {:?}", " ".repeat(self.depth), name, cargs);
+        }
+        // 0. dynamic dispatch: `&dyn Trait` values remember their concrete pointee type
+        if tcx.trait_of_assoc(d).is_some() && cargs.len() > 0 {
+            if let Some(t0) = cargs.get(0).and_then(|a| a.as_type()) {
+                if matches!(t0.kind(), ty::Dynamic(..)) {
+                    if let Some((V::Dyn(p, cty), rt)) = vals.first().cloned() {
+                        let mut na: Vec<ty::GenericArg<'tcx>> = cargs.iter().collect();
+                        na[0] = cty.into();
+                        let nargs = tcx.mk_args(&na);
+                        let nrt = match rt.kind() {
+                            ty::Ref(r, _, m) => Ty::new_ref(tcx, *r, cty, *m),
+                            ty::RawPtr(_, m) => Ty::new_ptr(tcx, cty, *m),
+                            _ => rt,
+                        };
+                        vals[0] = (V::Ptr(p), nrt);
+                        return self.call_def(d, nargs, vals, ret_ty);
+                    }
+                }
+            }
         }
         // 1. external scalar operations
         if let Some(en) = self.ext_name(d, cargs) {
@@ -326,7 +356,8 @@ impl<'tcx> M<'tcx> {
         // 2. closures / fn items / fn pointers through the Fn* traits
         if let Some(tr) = tcx.trait_of_assoc(d) {
             let trn = tcx.item_name(tr);
-            if matches!(trn.as_str(), "Fn" | "FnMut" | "FnOnce") {
+            // (a struct implementing the Fn traits itself, like core's NeverShortCircuit wrappers, is resolved like any other trait call)
+            if matches!(trn.as_str(), "Fn" | "FnMut" | "FnOnce") && matches!(peel_refs(cargs.type_at(0)).kind(), ty::Closure(..) | ty::FnDef(..) | ty::FnPtr(..)) {
                 let selfty = cargs.type_at(0);
                 let (tupv, tupt) = vals.pop().ok_or_else(|| Stop::Unsupported("Fn call without args".into()))?;
                 let tup: Vec<V<'tcx>> = match tupv {
@@ -427,6 +458,22 @@ impl<'tcx> M<'tcx> {
     pub fn run_instance(&mut self, inst: Instance<'tcx>, args: Vec<(V<'tcx>, Ty<'tcx>)>) -> R<V<'tcx>> {
         let tcx = self.tcx;
         let body = tcx.instance_mir(inst.def);
+        if let Ok(pat) = std::env::var("VEKSCAN_MIRDUMP") {
+            let n = tcx.def_path_str(inst.def_id());
+            if n.contains(&pat) {
+                eprintln!("MIRDUMP {} {:?}", n, inst.args);
+                for (l, d) in body.local_decls.iter_enumerated() {
+                    eprintln!("  let {:?}: {:?}", l, d.ty);
+                }
+                for (bb, data) in body.basic_blocks.iter_enumerated() {
+                    eprintln!("  {:?}:", bb);
+                    for st in &data.statements {
+                        eprintln!("    {:?}", st.kind);
+                    }
+                    eprintln!("    -> {:?}", data.terminator().kind);
+                }
+            }
+        }
         let mut fr = Frame { inst, body, locals: vec![] };
         for (_l, d) in body.local_decls.iter_enumerated() {
             let t = self.mono(&fr, d.ty);
@@ -461,8 +508,13 @@ impl<'tcx> M<'tcx> {
             return unsup("call depth");
         }
         let mut bb = START_BLOCK;
+        self.loc_stack.truncate(self.depth - 1);
+        self.loc_stack.push((fr.inst.def_id(), 0));
         loop {
             self.steps += 1;
+            if let Some(top) = self.loc_stack.get_mut(self.depth - 1) {
+                top.1 = bb.as_usize();
+            }
             if self.steps > self.cfg.max_steps {
                 return unsup("step budget exhausted (data-dependent loop?)");
             }
@@ -484,7 +536,19 @@ impl<'tcx> M<'tcx> {
                         };
                         self.store(&ptr, t, nv)?;
                     }
-                    _ => {}
+                    StatementKind::Intrinsic(i) => match &**i {
+                        NonDivergingIntrinsic::Assume(_) => {}
+                        NonDivergingIntrinsic::CopyNonOverlapping(c) => {
+                            let (src, st) = self.operand(&fr, &c.src)?;
+                            let (dst, _) = self.operand(&fr, &c.dst)?;
+                            let (cnt, _) = self.operand(&fr, &c.count)?;
+                            let et = match st.kind() { ty::RawPtr(t, _) | ty::Ref(_, t, _) => *t, _ => return unsup("copy through a non-pointer") };
+                            self.copy_elems(src, dst, cnt, et)?;
+                        }
+                    },
+                    StatementKind::StorageLive(_) | StatementKind::StorageDead(_) | StatementKind::Nop | StatementKind::FakeRead(_) | StatementKind::PlaceMention(_) | StatementKind::AscribeUserType(..) | StatementKind::Coverage(_) | StatementKind::ConstEvalCounter | StatementKind::BackwardIncompatibleDropHint { .. } => {}
+                    #[allow(unreachable_patterns)]
+                    o => return unsup(format!("statement {:?}", o)),
                 }
             }
             match &data.terminator().kind {
@@ -567,6 +631,23 @@ impl<'tcx> M<'tcx> {
                 o => return unsup(format!("terminator {:?}", o)),
             }
         }
+    }
+
+    /// memcpy / memmove of `count` elements of type `et` (element-wise load/store through the value trees; source read completely first)
+    pub fn copy_elems(&mut self, src: V<'tcx>, dst: V<'tcx>, cnt: V<'tcx>, et: Ty<'tcx>) -> R<()> {
+        let (V::Ptr(s), V::Ptr(d)) = (src, dst) else { return unsup("copy between non-pointers") };
+        let V::Int(n) = cnt else { return unsup("copy with a symbolic element count") };
+        let stride = leaf_count(self.tcx, et);
+        let mut tmp = vec![];
+        for k in 0..n as usize {
+            let p = Ptr { alloc: s.alloc, path: s.path.clone(), off: s.off + k * stride, sl: None };
+            tmp.push(self.load(&p, et)?);
+        }
+        for (k, v) in tmp.into_iter().enumerate() {
+            let p = Ptr { alloc: d.alloc, path: d.path.clone(), off: d.off + k * stride, sl: None };
+            self.store(&p, et, v)?;
+        }
+        Ok(())
     }
 
     // ---------------------------------------------------------------- drops
